@@ -1319,6 +1319,9 @@ def c05_tree(model, meta):
 
             readline = read
 
+            def close(self):
+                self.f.close()
+
         def faulty_open(fname, *a, **kw):
             for v, how in in_map.items():
                 if fname.endswith(f"/{v}/stat"):
